@@ -272,19 +272,20 @@ def r4(R4, cfg, F):
         allowed = {'into_iter', 'next', 'get_mut', 'deref_mut', 'clear', 'iter_mut'}
         ok = len(clr) == 1 and clr[0].callee.name == 'clear' and set(names) <= allowed
         if m == 'cache::AssetMap':
-            it = [c for c in b.calls() if c.callee and c.callee.name in ('into_iter', 'iter_mut')]
-            ok = ok and len(it) == 1
+            # the loop iterates the whole shard slice: next() is applied to an iterator made directly from self.shards
+            adaptors = [c.callee.name for c in b.calls() if c.callee and c.callee.trait == 'std::iter::Iterator' and c.callee.name != 'next']
+            nx = [c for c in b.calls() if c.callee and c.callee.name == 'next']
+            ok = ok and len(nx) == 1 and not adaptors
             if ok:
-                ap = b.access_path(it[0].args[0])
-                ok = bool(ap) and ap[:3] == ['arg1', '*', 'shards']
+                pt = common.make_pt(r'IntoIterator.*::into_iter$', r'::iter_mut$', r'::iter$')
+                ok = b.origins(nx[0].args[0], passthrough=pt) == {('arg', 1)}
+                srcs = [c for c in b.calls() if c.callee and c.callee.name in ('into_iter', 'iter_mut') and (b.access_path(c.args[0]) or [])[:3] == ['arg1', '*', 'shards']]
+                ok = ok and len(srcs) >= 1
                 # every iteration clears: from the Some edge of next(), the loop header is reached only through clear()
-                nx = [c for c in b.calls() if c.callee and c.callee.name == 'next']
-                ok = ok and len(nx) == 1
-                if ok:
-                    hdr = nx[0].bb
-                    sw = [bb for bb, t in b.terms() if t['k'] == 'switch' and b.access_path(t['discr']) == ['call@bb%d' % hdr, 'discr']]
-                    some = [d for bbx in sw for d, lab in b.edges(bbx) if lab == 'sw:1']
-                    ok = len(some) == 1 and hdr not in b.reachable(some, removed_blocks=[clr[0].bb])
+                hdr = nx[0].bb
+                sw = [bb for bb, t in b.terms() if t['k'] == 'switch' and b.access_path(t['discr']) == ['call@bb%d' % hdr, 'discr']]
+                some = [d for bbx in sw for d, lab in b.edges(bbx) if lab == 'sw:1']
+                ok = ok and len(some) == 1 and hdr not in b.reachable(some, removed_blocks=[clr[0].bb])
         R4.check(ok, cfg, b.path, 'clears-every-map', 'clear must clear the whole map (every shard, no iterator adaptor); calls: %s' % names, b.loc())
 
 
